@@ -18,6 +18,7 @@ import Cosi.Driver.Access
 import Cosi.Driver.Persist
 import Cosi.Driver.Cache
 import Cosi.Driver.Restart
+import Cosi.Driver.Codec
 
 open Cosi
 
@@ -43,7 +44,8 @@ def engines : List (String × Engine) := [
   ("persist", ⟨Driver.Persist.St, Driver.Persist.init, Driver.Persist.stepLine⟩),
   ("cache", ⟨Driver.Cache.St, Driver.Cache.init, Driver.Cache.stepCache⟩),
   ("cacherun", ⟨Driver.Cache.RSt, Driver.Cache.rinit, Driver.Cache.stepRun⟩),
-  ("faults", ⟨Driver.Restart.St, Driver.Restart.init, Driver.Restart.stepLine⟩)
+  ("faults", ⟨Driver.Restart.St, Driver.Restart.init, Driver.Restart.stepLine⟩),
+  ("codec", ⟨Driver.Codec.St, Driver.Codec.init, Driver.Codec.stepLine⟩)
 ]
 
 partial def loop (e : Engine) (spec : Bool) (inp : IO.FS.Stream) (out : IO.FS.Stream) (st : e.σ) : IO Unit := do
